@@ -198,7 +198,7 @@ def run(tier, work):
     frs = fragments(work, stats, rng, 4 if tier == "quick" else 25, by_op=(tier == "quick"))   # thorough: one per called method too
     hosts = [(t, x) for t, x in P.corpus(rng, 45 if tier == "quick" else 585)]
     hosts += [(t, x) for t, x, c in P.generated(work, stats, rng, *((6, 4, 4) if tier == "quick" else (40, 25, 25)))]
-    chosts = class_hosts(work, stats, rng, 4 if tier == "quick" else 30)
+    chosts = class_hosts(work, stats, rng, 4 if tier == "quick" else 10)
     full = {t for t, _ in chosts}          # hosts that get EVERY boundary x one fragment of every statement kind
     hosts += chosts
     jobs, meta = [], []
